@@ -62,8 +62,17 @@ def run(repo: Repo, chk: Check):
             ident = isinstance(k, ast.Lambda) and len(k.args.args) == 1 and isinstance(k.body, ast.Name) and k.body.id == k.args.args[0].arg
             return (by_first if items else ident), norm(call)
         return True, norm(call)
+    # either every region comes out of one loop in ascending key order (the key '' sorts first), or the main entry is emitted by a
+    # statement of its own before that loop
+    ordered = sorted(ems, key=lambda e: (e.stmt.lineno, e.stmt.col_offset))
+    explicit_main = ordered[0].region == "main" and not ordered[0].conds
     for em in ems:
+        if em.region == "main" and explicit_main and em is ordered[0]:
+            chk.ok("R07.a", "generate_code:run:the main region is emitted first by a statement of its own", {"statement": norm(em.stmt)[:80]})
+            continue
         ok_sorted, txt = key_order(em.order)
+        if explicit_main:
+            ok_sorted = em.order is not None or bool(em.sources)    # the order among the functions does not matter for this property
         chk.judge("R07.a", "generate_code:run:regions are emitted in sorted key order", ok_sorted,
                   f"the regions that reach self.code are drawn from {[norm(x)[:80] for x in em.sources] or 'no loop at all'}: the main region (key '') is first only in "
                   f"plain ascending order of the keys of the function table", {"order": txt}, where)
@@ -75,10 +84,12 @@ def run(repo: Repo, chk: Check):
     before = bool(main_keys) and all(main_keys[0].lineno < v.lineno for v in visit)
     chk.judge("R07.a", "generate_code:run:the main region is registered under the key '' before code is gathered", okk and before,
               f"main region key is {[norm(t) for st in main_keys for t in st.targets]}", None, where)
-    others = [em for em in ems if em.order is None]
+    others = [em for em in ems if em.order is None and not (explicit_main and em is ordered[0])]
     chk.judge("R07.a", "generate_code:run:nothing is emitted outside the region loop", not others and len({norm(em.order) for em in ems if em.order is not None}) <= 1,
               f"self.code also receives lines at {[norm(em.stmt)[:60] for em in others] or [norm(em.stmt)[:60] for em in ems]}", None, where)
     for em in ems:
+        if explicit_main and em is not ordered[0]:
+            continue      # the main entry has its own statement
         rows, free = emission_table(em)
         if not free:
             chk.judge("R07.a", "generate_code:run:the main region is always emitted", all(e for a, e in rows if a["M"] and not a["X"]),
